@@ -208,6 +208,18 @@ pub fn test_composite(c: &CompCase) -> Verdict {
     }
 }
 
+pub fn test_c12_composite(c: &CompCase) -> Verdict {
+    if c.operands.is_empty() {
+        return Verdict::pass(false, &["skipped:no_operands"]);
+    }
+    match c.be {
+        Be::FftRef => fft_ref::run_c12_composite(c),
+        Be::FftAvx => fft_avx::run_c12_composite(c),
+        Be::NttRef => ntt_ref::run_c12_composite(c),
+        Be::NttAvx => ntt_avx::run_c12_composite(c),
+    }
+}
+
 fn comp_strategy() -> BoxedStrategy<CompCase> {
     (
         prop_oneof![Just(Be::FftRef), Just(Be::FftAvx), Just(Be::NttRef), Just(Be::NttAvx)],
@@ -371,6 +383,9 @@ fn main() {
         if sub == "composite_ops" {
             std::process::exit(ctx.replay_case::<CompCase, _>(&sub, &case, test_composite));
         }
+        if prop == "C12" && sub == "ckks_composite_exact_scratch" {
+            std::process::exit(ctx.replay_case::<CompCase, _>(&sub, &case, test_c12_composite));
+        }
         if prop == "C12" {
             std::process::exit(ctx.replay_case::<Case, _>(&sub, &case, test_c12));
         }
@@ -407,7 +422,8 @@ fn main() {
         let ctx = DCtx::from_args(&prop, &args[1..]);
         let t = ctx.tier;
         ctx.run_sub("ckks_exact_scratch", t.pick(12_000, 300_000), 64, strategy, test_c12);
-        let code = ctx.finish(RULE_C12, &["programs the C16 oracle rejects (or that panic with ample scratch) are skipped here: they are C16's subject"], &[("mul_into", 50), ("rotate", 50), ("exact_windows>=2", 500)]);
+        ctx.run_sub("ckks_composite_exact_scratch", t.pick(6_000, 120_000), 64, comp_strategy, test_c12_composite);
+        let code = ctx.finish(&format!("{RULE_C12} Sub-check ckks_composite_exact_scratch: the composite cases of C16 (six multiply-add / multiply-subtract forms, add_many, mul_many, the four dot products incl. unequal budgets / scales on both sides) with the composite call on a window of exactly its own query (queried with the widest of destination and operands), two fills; the C16 oracle of the case (bit identity with the chain of primitives on roomy scratch, budget algebra, decoded slots) must not change its verdict."), &["programs the C16 oracle rejects (or that panic with ample scratch) are skipped here: they are C16's subject"], &[("mul_into", 50), ("rotate", 50), ("exact_windows>=2", 500)]);
         std::process::exit(code);
     }
     if prop != "C16" {
